@@ -80,7 +80,7 @@ func GID(site string, who int) string {
 // New returns a scheduler; the consumer goroutine "c" must be registered with Go().
 func New() *Sched {
 	return &Sched{arrive: make(chan arrival, 1024), parked: map[string]*Pending{}, exited: map[string]bool{},
-		running: map[string]bool{}, Timeout: 60 * time.Second, CtxDone: func() bool { return false }}
+		running: map[string]bool{}, Timeout: 300 * time.Second, CtxDone: func() bool { return false }}
 }
 
 // Go marks goroutine g as running (it will park or exit by itself).
